@@ -66,9 +66,13 @@ CLAIMED["C02"] = dict(
     "The first clause holds for every remaining shape as well (C02_copy_found, C02_locate_copy_found; Proofs/AlignCopyGen.v): for all types whose aligner may stop anywhere in the read (regular/non-internal 5', 'anywhere', regular 3', anchored 5'), "
     "an error-free occurrence adapter[rs,rs+L) = read[p,p+L) with rs = 0 or p = 0 as the type allows, ending at the end of the adapter or (partial adapter) of the read, at least min_overlap long, is always reported -- including a read lying inside an 'anywhere' adapter. "
     "'Reported' means match_to with its prefilter: C02_found_is_reported (by C07_no_change). "
-    "PARTIAL: the three cut-position clauses are not theorems; they rest on the correspondence (model match_to_prefiltered = implementation match_to for all eight classes) and on oracle_C02 "
+    "The cut-position clauses are theorems as well (Proofs/AlignCut.v, AlignCutTail.v): with p the leftmost error-free copy of the whole adapter, a regular 5'/3' or 'anywhere' adapter reports exactly [p, p+m) or a match that ends before p+m and starts more than m/2 before p "
+    "(C02_leftmost_copy; hence C02_back_cut_at_or_before -- cut at or before p and no error-free copy in what is kept -- and C02_front_cut_at_or_before); on the reversed strings the same yields C02_rightmost_copy / C02_rightmost_cut_at_or_after; "
+    "an error-free anchored adapter is removed exactly also with indels (C02_anchored5_exact; C02_anchored3_exact via minimality of the reported cost over all starts). "
+    "Invariants used: exact tracking of the copy's diagonal, score = m only at cost 0 with the whole adapter (cellU), every cell computed at row i in a column j >= p+i has origin >= p (cellG; a stale cell below the Ukkonen band is too expensive for the insertion branch), the stale C variable `origin` of the last-column scan included. "
+    "What is not a theorem is the tie of the aligner model to _align.pyx: correspondence (model match_to_prefiltered = implementation match_to for all eight classes) and oracle_C02 "
     "(planted admissible occurrences verified by textbook distance, exhaustive enumeration of admissible interval quadruples in small scope, leftmost/rightmost exact-copy cut clauses) run against the implementation.",
-    technique="Coq proof (comparers; exact tracking of the diagonal of an error-free copy; completeness of the banded DP for occurrences with errors via the lower-bound invariant, all on the column fold of the Aligner.locate model) + extracted-model differential correspondence of prefiltered match_to; brute-force oracle search on the implementation",
+    technique="Coq proof (comparers; exact tracking of the diagonal of an error-free copy; completeness of the banded DP for occurrences with errors via the lower-bound invariant; cut positions via score/origin invariants of the recurrence and the candidate-replacement rule; all on the column fold of the Aligner.locate model) + extracted-model differential correspondence of prefiltered match_to; brute-force oracle search on the implementation",
     design="6/C02",
     note=TB + " thr[L] = int(L*rate) computed in CPython. Two genuine defects found by this check were repaired in /repo (fix: commits 68eb3cf, 579ddcc; see known_findings.json).",
 )
